@@ -1237,6 +1237,46 @@ def gen_paused_subscriber(seed, mode="dispatch"):
     return sc
 
 
+def gen_flush_many_changes(seed, mode="loop"):
+    """C19: 4-9 subscribers of the loop-stopped notification; the handlers of several of them - run by the final flush of the loop
+    - each register or deregister a module other than their own (every such call changes the context's module table while
+    the flush walks it): still every subscribed running module gets the notification exactly once"""
+    r = random.Random(seed * 239 + 211)
+    sc = Sc(mode, "module table changed by several handlers of the final flush seed=%d" % seed)
+    driven_skeleton(sc)
+    n = r.randrange(4, 10)
+    t_stop = sc.topic("LIBMODULE_CTX_STOPPED")
+    t_start = sc.topic("LIBMODULE_CTX_STARTED")
+    for i in range(1, n + 1):
+        sc.mod(i, "%s%d" % (r.choice(["sub", "w", "obs_"]), r.randrange(1000) * 32 + i), 0, 0)
+        sc.mod(n + i, "helper%d" % (r.randrange(1000) * 32 + i), 0, 0)
+        sc.cb(n + i, "evt", "*", [])
+        sc.main += [("reg", i), ("start", i), ("sub", i, t_stop, r.choice([0, 0, SRC_HIGH, SRC_LOW]), sc.ud())]
+        pre_started = r.random() < 0.3
+        if pre_started:
+            sc.main.append(("sub", i, t_start, 0, sc.ud()))
+        x = r.random()
+        if x < 0.45:
+            sc.main.append(("reg", n + i))
+            if r.random() < 0.3:
+                sc.main.append(("start", n + i))
+            ops = [("dereg", n + i)]
+        elif x < 0.75:
+            ops = [("reg", n + i)]
+        elif x < 0.85:
+            ops = [("dereg", -1)]
+        else:
+            ops = []
+        sc.cb(i, "evt", 1 if pre_started else 0, ops)
+        if pre_started:
+            sc.cb(i, "evt", 0, [])
+        sc.cb(i, "evt", "*", [])
+    steps = [[], [], []]
+    driven_finish(sc, steps, rng=r)
+    finalize_main(sc)
+    return sc
+
+
 def gen_tick_in_flush(seed, mode="loop"):
     """C20: m_ctx_set_tick() called by a handler that the final flush of a loop run invokes (loop-stopped notification) while a
     tick is active"""
@@ -1854,7 +1894,7 @@ def gen_registry(seed, mode="loop"):
     return sc
 
 
-def gen_batching(seed, mode="loop"):
+def gen_batching(seed, mode="loop", resub=False):
     """C13: one target module with LOW / NORMAL / HIGH subscriptions and a descriptor source; serialised production: after
     every burst the driver idles for more poll batches than events are outstanding, so arrival order and the settings in
     force at each arrival are unambiguous"""
@@ -1921,7 +1961,13 @@ def gen_batching(seed, mode="loop"):
         steps += [[("sleep", 2500)], [], [("sleep", 2500)], []]
         steps.append([("publish", S2, tn, sc.pay(), 0)])
         settle(1)
+    r2 = random.Random(seed * 233 + 199)
     for phase in range(r.randrange(3, 10) if not use_timeout else r.randrange(2, 5)):
+        if resub and r2.random() < 0.4:
+            # the same topic subscribed again with another priority (ownership flags unchanged): from now on the events of
+            # that topic have the new priority
+            steps.append([("sub", T, r2.choice([tl, tn, th]), r2.choice([SRC_LOW, 0, SRC_NORM, SRC_HIGH]), sc.ud())])
+            steps.append([])
         x = r.random()
         if x < 0.2 and not use_timeout:
             steps.append([("bsize", T, r.choice([0, 1, 2, 3, 7, 64]))])
@@ -2233,6 +2279,46 @@ def gen_oneshot_sub_replaced(seed, mode="loop"):
         step.append(("sub", M, tl, newfl, sc.ud()))
     step.append(("srclen", M))
     steps = [[], step, [], [], [("srclen", M)], [("publish", S2, tl, sc.pay(), 0)], [], [], [("srclen", M), ("unsub", M, tl), ("srclen", M), ("unsub", M, tl)], []]
+    driven_finish(sc, steps, rng=r)
+    finalize_main(sc)
+    return sc
+
+
+def gen_full_mailbox_broadcast(seed, mode="loop"):
+    """C02: a topic-less broadcast (and a topic publish) sent while ONE module's mailbox is full (more than 8192 messages
+    pending for a paused or running recipient): the recipient with the full mailbox may lose it, every other eligible module -
+    wherever it sits in the context's module table, hence 4-9 bystanders with seed-dependent names - must still get it,
+    exactly once"""
+    r = random.Random(seed * 229 + 197)
+    sc = Sc(mode, "broadcast while one mailbox is full seed=%d" % seed)
+    driven_skeleton(sc)
+    F, S2 = 1, 2
+    sc.mod(F, "full%d" % r.randrange(100), 0, 0)
+    sc.mod(S2, "sender%d" % r.randrange(100), 0, 0)
+    by = list(range(3, 3 + r.randrange(4, 10)))
+    for b in by:
+        sc.mod(b, "%s%d" % (r.choice(["by", "lst", "m", "watcher_"]), r.randrange(1000) * 16 + b), 0, 0)
+    tp = sc.topic("alpha")
+    for s in [F, S2] + by:
+        sc.cb(s, "evt", "*", [])
+        sc.main += [("reg", s), ("start", s)]
+    for b in by:
+        if r.random() < 0.6:
+            sc.main.append(("sub", b, tp, r.choice([0, SRC_DUP, SRC_HIGH]), sc.ud()))
+    paused_by = [b for b in by if r.random() < 0.2]
+    n = r.choice([8193, 8200, 8300, 9000])
+    ops = [("pause", b) for b in paused_by]
+    paused_full = r.random() < 0.7
+    if paused_full:
+        ops.append(("pause", F))
+    ops += [("tell", S2, F, sc.pay(), 0) for _ in range(n)]
+    ops.append(("publish", S2, -1, sc.pay(), 0))
+    ops.append(("publish", r.choice(by), tp, sc.pay(), 0))
+    if r.random() < 0.5:
+        ops.append(("publish", r.choice(by), -1, sc.pay(True), PS_AUTOFREE))
+    steps = [[], ops] + [[] for _ in range(4)]
+    steps.append([("resume", b) for b in paused_by] + ([("resume", F)] if paused_full else []))
+    steps += [[] for _ in range(5)]
     driven_finish(sc, steps, rng=r)
     finalize_main(sc)
     return sc
